@@ -29,6 +29,10 @@ def enc(x):
     return {'$ell': 1}
   if isinstance(x, things.Color):
     return {'$e': x.name}
+  if isinstance(x, slice):
+    return {'$sl': [enc(x.start), enc(x.stop), enc(x.step)]}
+  if type(x) is tuple:
+    return {'$t': [enc(e) for e in x]}
   raise TypeError(f'cannot encode leaf {x!r}')
 
 
@@ -50,6 +54,13 @@ def dec(j):
       return things.Color[j['$e']]
     if '$sym' in j:
       return things.resolve_symbol(j['$sym'])
+    if '$t' in j:
+      return tuple(dec(v) for v in j['$t'])
+    if '$sl' in j:
+      return slice(*[dec(v) for v in j['$sl']])
+    if '$nv' in j:
+      import fiddle as fdl
+      return fdl.NO_VALUE
     raise ValueError(f'bad leaf encoding {j!r}')
   return j
 
@@ -79,6 +90,26 @@ def leaf(profile='plain'):
         _small_int, st.integers().map(enc), _ident_str, st.text(max_size=6).map(enc),
         st.none(), st.booleans(), st.floats(allow_nan=False).map(enc),
         st.binary(max_size=6).map(enc), st.sampled_from(list(things.Color)).map(enc),
+    )
+  if profile == 'serializable':
+    esc_bytes = st.sampled_from([b'\\u0041', b'\\x41', b'\\U00000041', b'a\\nb', b'\\', b'\xff\\u00e9',
+                                 b'\\N{DASH}', b'', b'plain', bytes(range(256))])
+    surrogates = st.sampled_from(['\ud800', 'a\udfffb', '\x00', '\u2028', 'é', '😀'])
+    return st.one_of(
+        _small_int, st.integers().map(enc), _ident_str, st.text(max_size=6).map(enc),
+        surrogates.map(enc), st.none(), st.booleans(), _special_floats.map(enc),
+        st.floats().map(enc), st.binary(max_size=6).map(enc), esc_bytes.map(enc),
+        st.sampled_from(list(things.Color)).map(enc),
+        st.sampled_from([slice(None), slice(1, 2), slice(0, 10, 2), slice('a', None, 1.5)]).map(enc),
+        st.just({'$nv': 1}),
+        st.just({'$sym': 'things:CONST_OBJ'}), st.just({'$sym': 'things:f2'}),
+        st.just({'$sym': 'things:Base'}), st.just({'$sym': 'things:DICT_OBJ'}),
+    )
+  if profile == 'hashable_ser':  # dict keys / set elements
+    return st.one_of(
+        _small_int, st.integers().map(enc), _ident_str, st.text(max_size=4).map(enc),
+        st.none(), st.booleans(), st.sampled_from([1.5, -0.0, 0.0, 2.0, math.inf]).map(enc),
+        st.binary(max_size=4).map(enc), st.sampled_from(list(things.Color)).map(enc),
     )
   if profile == 'literal':  # repr round-trips through ast.literal_eval
     return st.one_of(
